@@ -195,7 +195,7 @@ def main():
     n_second = 0
     for f, j in jobs:
         for gi, g in enumerate(j["groups"]):
-            if g["form"] == "R":
+            if g["form"] == "R" and g.get("only_if_failed"):
                 continue
             key = hashlib.sha256(group_query(g).encode()).hexdigest() if g["items"] else "trivial-%s-%d" % (f, gi)
             if key in seen:
@@ -219,7 +219,7 @@ def main():
             if g["form"] != "R" and g["items"]:
                 verd[g["name"]] = results[hashlib.sha256(group_query(g).encode()).hexdigest()]["verdict"]
         for gi, g in enumerate(j["groups"]):
-            if g["form"] == "R" and verd.get(g.get("only_if_failed")) == "sat":
+            if g["form"] == "R" and g.get("only_if_failed") and verd.get(g.get("only_if_failed")) == "sat":
                 rwork.append(((f, gi, g, timeout, False), "R-%s-%d" % (f, gi)))
     with cf.ThreadPoolExecutor(max_workers=14) as ex:
         futs = {ex.submit(solve_group, w): key for (w, key) in rwork}
@@ -244,9 +244,23 @@ def main():
                 violations.append({"job": f, "scenario": j["scenario"], "kind": "structural", "what": s["name"], "detail": s["detail"], "replay": j.get("replay")})
         for msg in j.get("inconclusive", []):
             inconclusive.append("%s: %s" % (j["scenario"], msg))
-        r_groups = {g.get("only_if_failed"): ("R-%s-%d" % (f, gi)) for gi, g in enumerate(j["groups"]) if g["form"] == "R"}
+        r_groups = {g.get("only_if_failed"): ("R-%s-%d" % (f, gi)) for gi, g in enumerate(j["groups"]) if g["form"] == "R" and g.get("only_if_failed")}
         for gi, g in enumerate(j["groups"]):
+            if g["form"] == "R" and g.get("only_if_failed"):
+                continue
             if g["form"] == "R":
+                key = hashlib.sha256(group_query(g).encode()).hexdigest() if g["items"] else "trivial-%s-%d" % (f, gi)
+                res = results[key]
+                obligations += 1
+                if seen[key][0] == (f, gi):
+                    solver_s += res.get("z3_s", 0)
+                if res["verdict"] == "unsat":
+                    discharged += 1
+                elif res["verdict"] == "sat":
+                    violations.append({"job": f, "scenario": j["scenario"], "kind": "solver-R", "what": g["name"], "detail": "rejection query sat: candidate counterexample", "model": res.get("model", {}), "replay": j.get("replay"), "claim": g["claim"]})
+                else:
+                    inconclusive.append("%s/%s: solver verdict %s" % (j["scenario"], g["name"], res["verdict"]))
+                jr["groups"].append({k: res.get(k) for k in ("group", "form", "verdict", "n_items", "n_vars", "n_inverses", "n_terms", "z3_s", "query_sha")})
                 continue
             key = hashlib.sha256(group_query(g).encode()).hexdigest() if g["items"] else "trivial-%s-%d" % (f, gi)
             res = results[key]
